@@ -11,7 +11,7 @@ RULE = ("(A) MC_Codec(int): RangeLimits - for every width the limits fit and lim
         "with length, token string, fromstring, Dtype.build, pack x3, property assignment on an empty object, on a sized object "
         "and on an object holding other content). TLC requires CreationError(ValueError) and nothing created / nothing changed "
         "for every non-fitting combination and exactly the requested length for every fitting one. (C) random widths up to 333 "
-        "bits with values at, just inside and just outside every limit. Windows over bytes/bitarray/files are decided under C17.")
+        "bits with values at, just inside and just outside every limit. The Array element route (construction, append, extend, insert, item assignment) incl. Arrays over power-of-two scaled dtypes interleaved with unscaled Arrays of the same name given the same values; (offset, length) windows over bytes / bytearray / BytesIO / bitarray / files ending up to a byte before, at and after the end of the source (also decided under C17).")
 
 
 def run(chk):
@@ -22,5 +22,14 @@ def run(chk):
                  row_filter=new_only, read_back=False, setprop=True)
     chk.exhaustive = True
     cc.run_random(chk, codecprogs.random_codec_program, 6000 if thorough else 1500, 15)
+    import random
+    from harness import arrayprogs, serialprogs
+    rng = random.Random(chk.seed * 151 + 15)
+    # the Array element route: scaled and unscaled dtypes of the same name given the same values
+    chk.queue([arrayprogs.scaled_array_program(rng) for _ in range(2500 if thorough else 600)], 'array-scaled-vs-unscaled')
+    chk.queue([arrayprogs.array_program(rng) for _ in range(2000 if thorough else 400)], 'array-elements')
+    # windows over byte sources that overrun by less than a byte
+    chk.queue([serialprogs.window_program(rng) for _ in range(3000 if thorough else 800)], 'windows')
+    chk.queue([serialprogs.tight_window_program(rng) for _ in range(1500 if thorough else 400)], 'windows-at-the-end')
     chk.flush()
     return chk.finish(rule=RULE, assumptions=ASSUME)
